@@ -32,6 +32,7 @@ CMP = [sp['id'] for sp in rs2lean.FUNCS if sp.get('cmpimpl')]
 DOORS = ['Validate', 'PointerParse', 'PointerBufParse', 'BufTryFromString', 'BufTryFromStr', 'BufFromStr']
 ITER = ['PointerTokens', 'TokensNext', 'ComponentsFrom', 'ComponentsNext']
 DISPLAY = ['DisplayToken', 'DisplayPointer', 'DisplayPointerBuf', 'DisplayIndex']
+SERDE = ['SerializePointer', 'SerializePointerBuf', 'DeserializePointerBuf', 'VisitBorrowedStr']
 BUILD = ['GetUsize', 'First', 'Last', 'WithTrailingToken', 'WithLeadingToken', 'Concat']
 BUF = ['FromTokens', 'PushFront', 'PushBack', 'PopBack', 'Append', 'Clear', 'PopFront', 'Replace']
 def _u(*ls):
@@ -44,17 +45,17 @@ def _u(*ls):
 PROP_FUNCS = {
     'C01': _u(['ValidateBytes'], DOORS, TOKEN, SLICE, POINTER, BUF, BUILD),
     'C11': _u(BUF, ['IsRoot', 'Count']),
-    'C02': _u(['ValidateBytes'], DOORS), 'C14': _u(['ValidateBytes'], PARSEERR, DOORS),
+    'C02': _u(['ValidateBytes'], DOORS, ['DeserializePointerBuf', 'VisitBorrowedStr']), 'C14': _u(['ValidateBytes'], PARSEERR, DOORS),
     'C05': _u(WALKS, ['IndexFromStr', 'ForLen'], TOIDX), 'C09': _u(WALKS, DELETE, EXPAND, ASSIGN, ['IndexFromStr', 'ForLen'], TOIDX, ['DisplayToken']), 'C15': _u(WALKS, ASSIGN, LABELS, ['IndexFromStr', 'ForLen'], TOIDX),
     'C08': _u(WALKS, DELETE, ['IndexFromStr', 'ForLen'], TOIDX), 'C10': _u(WALKS, DELETE, EXPAND, ASSIGN, ['IndexFromStr', 'ForLen'], TOIDX, ['DisplayToken']),
     'C06': _u(EXPAND, ASSIGN, ['IndexFromStr', 'ForLenIncl'], TOIDX, ['DisplayToken']), 'C07': _u(EXPAND, ASSIGN, ['IndexFromStr', 'ForLenIncl'], TOIDX, ['DisplayToken']),
-    'C17': CMP, 'C18': DISPLAY,
+    'C17': CMP, 'C18': _u(DISPLAY, SERDE, ['BufTryFromString', 'PointerParse', 'Validate', 'ValidateBytes']),
     'C03': _u(TOKEN, ['DisplayToken']), 'C04': _u(ACCESS, ['FromTokens'], BUILD, ['PushBack', 'PushFront', 'Append'], ITER), 'C12': _u(SLICE, SPLITS, ['GetUsize']), 'C13': _u(RELS, ['Append', 'Concat']), 'C16': _u(INDEX, ['DisplayIndex']),
     'C19': _u(TOKEN, SLICE, SPLITS, RELS, ACCESS),
 }
 TRANSPORT_MEMBERS = {'TransportValidate': ['ValidateBytes'], 'TransportToken': TOKEN, 'TransportSlice': SLICE, 'TransportIndex': INDEX,
                      'TransportPointer': POINTER, 'TransportResolve': WALKS, 'TransportBuf': BUF, 'TransportDelete': ['DeleteJson', 'DeleteToml'], 'TransportExpand': ['ExpandJson', 'ExpandToml'],
-                     'TransportAssign': [x for x in ASSIGN if x.startswith('Assign')], 'TransportBuild': BUILD, 'TransportDoors': DOORS, 'TransportIter': ITER, 'TransportCmp': CMP, 'TransportLabels': LABELS, 'TransportParseErr': PARSEERR}
+                     'TransportAssign': [x for x in ASSIGN if x.startswith('Assign')], 'TransportBuild': BUILD, 'TransportDoors': DOORS, 'TransportIter': ITER, 'TransportSerde': SERDE, 'TransportCmp': CMP, 'TransportLabels': LABELS, 'TransportParseErr': PARSEERR}
 TIE_THEOREMS = {
     'ValidateBytes': ['Jp.Tie.validate_bytes_eq', 'Jp.Tie.validate_bytes_nil'], 'FromEncoded': ['Jp.Tie.from_encoded_eq'],
     'TokenNew': ['Jp.Tie.new_eq'], 'Decoded': ['Jp.Tie.decoded_eq'], 'ForLen': ['Jp.Tie.for_len_eq'],
@@ -94,11 +95,14 @@ TIE_THEOREMS = {
     'ComponentsNext': ['Jp.Tie.components_next_eq'],
     'DisplayToken': ['Jp.Tie.display_token_eq'], 'DisplayPointer': ['Jp.Tie.display_pointer_eq'], 'DisplayPointerBuf': ['Jp.Tie.display_pointer_buf_eq'],
     'DisplayIndex': ['Jp.Tie.display_index_eq'],
+    'SerializePointer': ['Jp.Tie.serialize_pointer_eq'], 'SerializePointerBuf': ['Jp.Tie.serialize_pointer_buf_eq'],
+    'DeserializePointerBuf': ['Jp.Tie.deserialize_pointer_buf_eq'], 'VisitBorrowedStr': ['Jp.Tie.visit_borrowed_str_eq'],
     'ParseIndex': ['Jp.Tie.parse_index_eq'], 'ResolveJson': ['Jp.Tie.resolve_json_eq', 'Jp.Tie.resolve_json_loop'],
     'ResolveMutJson': ['Jp.Tie.resolve_mut_json_eq'], 'ResolveToml': ['Jp.Tie.resolve_toml_eq'], 'ResolveMutToml': ['Jp.Tie.resolve_mut_toml_eq'],
 }
 for _i in CMP: TIE_THEOREMS[_i] = [f'Jp.Tie.cmp_{_i}_eq']
 TRANSPORT_THEOREMS = {
+    'TransportSerde': ['gen_serde_roundtrip', 'gen_serde_refuses'],
     'TransportIter': ['gen_tokens_iter_eq', 'gen_components_iter_eq', 'gen_tokens_iter_fused'],
     'TransportDoors': ['gen_parse_eq_spec', 'gen_parse_ok_iff', 'gen_doors_agree', 'gen_parse_no_panic'],
     'TransportCmp': ['gen_eq_impls_are_text_eq', 'gen_ord_impls_are_lexCmp', 'gen_eq_iff_ord_eq'],
